@@ -1692,6 +1692,8 @@ class CollocatedIntegratedOptimizationProblem(OptimizationProblem, metaclass=ABC
                 (history_times.shape[0], len(self.dae_variables["constant_inputs"]))
             )
             if history_times.shape[0] > 0:
+                # This ensemble member's constant inputs
+                raw_constant_inputs = self.constant_inputs(ensemble_member)
                 for j, var in enumerate(self.dae_variables["constant_inputs"]):
                     var_name = var.name()
                     try:
